@@ -1678,6 +1678,11 @@ def reintroduces(r1, r2):
     return any(s.name in bound1 for v in sym_dict(r2).values() for s in v.free_symbols)
 
 
+def has_cycle(entries):
+    import sympy
+    return any(depends_on_cycle(entries, sympy.Symbol(k)) for k, _ in entries)
+
+
 def compose_stream(ctx, cirq, n):
     """cirq.resolve_parameters(r1, r2) (a ParamResolver resolved by a ParamResolver): the composed dictionary against the model
     of _resolve_parameters_, and the law resolve(resolve(x, r1), r2) = resolve(x, r1 then r2) on the real code."""
@@ -1711,12 +1716,25 @@ def compose_stream(ctx, cirq, n):
         except Unsupported:
             continue
         except Exception as ex:
-            comp, got, gterm = None, ('error', f'{type(ex).__name__}: {ex}'[:200]), '(Some [("!error"%string, Num 0)])'
+            # composing evaluates r1's and r2's own entries with value_of: is it a value_of failure on one of them?
+            res = [spec_value_of(ctx, cirq, r1, sympy.Symbol(k), True, None, 'compose') for k, _ in r1]
+            res += [spec_value_of(ctx, cirq, r2, sympy.Symbol(k), True, None, 'compose') for k, _ in r2]
+            if worst(res) is None:
+                sig = 'compose:reintroduced-symbol' if reintroduces(r1, r2) and not (has_cycle(r1) or has_cycle(r2)) else f'compose:raises:{type(ex).__name__}'
+                ctx.disagree('differential:compose', f'{dict(r1)} then {dict(r2)}', sig,
+                             f'cirq.resolve_parameters(ParamResolver({dict(r1)!r}), ParamResolver({dict(r2)!r})) raised {type(ex).__name__}: {ex}'[:500],
+                             dict(kind='compose', r1=[[k, repr_value(v)] for k, v in r1], r2=[[k, repr_value(v)] for k, v in r2]))
+            elif worst(res) == 'new':
+                ctx.mark_broken('differential:compose', f'{dict(r1)} then {dict(r2)}: {type(ex).__name__}')
+            continue
         envs = gen_envs(rng)
         cases.append((r1, r2, comp, got, envs))
         terms.append(f'({qlit(REL_TOL)}, {llit(envs, env_term)}, {t1}, {t2}, {gterm})')
         ctx.count('compose', [t1, t2], bool(r1) and bool(r2), sample=dict(r1=str(dict(r1)), r2=str(dict(r2)), composed=repr(comp)))
-        # the law, on the real code, for a few expressions
+        # the law, on the real code, for a few expressions.  Composing evaluates every entry, so a resolver that is cyclic
+        # somewhere makes the composition raise (as value_of does on the cyclic symbols); the law is about acyclic resolvers.
+        if comp is None and (has_cycle(r1) or has_cycle(r2)):
+            continue
         xs = [sympy.Symbol(s) for s in GEN_SYMS[:3]] + [gen_expr(rng, 2, GEN_SYMS, allow_fn=False)]
         for x in xs:
             if not isinstance(x, sympy.Basic) or x.is_Number:
